@@ -190,6 +190,7 @@ fn build_remover(config: ChiritoriConfiguration, content: Rc<String>) -> Remover
 fn build_formatters() -> Vec<Box<dyn Formatter>> {
     vec![
         Box::new(formatter::indent_remover::IndentRemover {}),
+        Box::new(formatter::first_line_indent_remover::FirstLineIndentRemover {}),
         Box::new(formatter::empty_line_remover::EmptyLineRemover {}),
         Box::new(formatter::prev_line_break_remover::PrevLineBreakRemover {}),
         Box::new(formatter::next_line_break_remover::NextLineBreakRemover {}),
